@@ -22,7 +22,7 @@ XDev == UNION {{[k |-> "up", op |-> op, kind |-> kd, shapes |-> Plain(n), fault 
 AllPlain == UNION {{[k |-> "up", op |-> op, kind |-> kd, shapes |-> Plain(n), fault |-> f] : f \in Faults(op, n)} :
                       op \in Ops, kd \in Kinds, n \in 0..MaxN}
 OneOdd == UNION {{[k |-> "up", op |-> op, kind |-> kd, shapes |-> [Plain(n) EXCEPT ![i] = sh], fault |-> NoFault] :
-                      i \in 1..n, sh \in {"dotdot", "abs", "sub"}} : op \in Ops, kd \in Kinds, n \in 1..MaxN}
+                      i \in 1..n, sh \in {"dotdot", "abs", "sub", "dot", "dotdot1", "slash"}} : op \in Ops, kd \in Kinds, n \in 1..MaxN}
 \* control files that carry only some of the three file lists (no Files field): whatever names they list,
 \* nothing outside the two directories may be touched
 Partial == UNION {{[k |-> "up", op |-> op, kind |-> kd, shapes |-> [Plain(n) EXCEPT ![i] = sh], fault |-> NoFault, lists |-> li] :
